@@ -10,6 +10,11 @@ CHECKS = {
     note='Trusted: Lean kernel + 3 standard axioms; MPI datatype/file-view semantics (subarray, hvector, set_view, read/write_at_all) assumed and exercised through OpenMPI+ROMIO; put_varm/get_varm pipeline (pack, convert, swap, imap typemaps, buftype decode) not modelled line by line but tied to Spec/Dataset.lean by the API-level differential stream; values restricted to exactly representable integers (conversion is C09).',
     technique='Lean 4 proof (induction over dimensions, byte-map frame lemmas) about a hand transcription of stride_flatten + unit and API-level differential correspondence',
     design='§4 C01'),
+ 'C10': dict(
+    text='PARTIAL. Proved: (1) a pairwise-disjoint batch of writes yields the same byte map in every order and under every split into per-process pieces (putElems_perm, split_any_way) - with C01 this is independence of the process count, the decomposition and the schedule; (2) the alignment-hint logic of ncmpi__enddef, transcribed literally (resolveAlign): results are positive multiples of 4, a hint beats the enddef argument, the argument beats the default, defaults 512/4/4 (4/4/4 on redefinition), a hint is honoured up to the 4-byte rounding. Not proved but decided differentially on the real library: every seeded logical program is run under several configurations (hints via MPI_Info or PNETCDF_HINTS, safe mode, ncmpi__enddef arguments, 1-4 processes with different decompositions): all results must equal the configuration-free abstract specification and the logical dumps must coincide; reported hint values must equal the model and the variable offsets must honour them.',
+    note='Partial: in-place swap, packing buffer size, hash-table sizes, collective header I/O, intra-node aggregation, safe mode and the PNETCDF_HINTS tokenizer are exercised (differential between configurations), not modelled; OpenMPI/ROMIO hints not modelled. Trusted: Lean kernel + 3 axioms; harness/apirun.c; Spec/Dataset.lean as the configuration-free reference.',
+    technique='Lean 4 proof (permutation invariance of disjoint writes; decision logic of alignment precedence) + differential execution between configurations against a configuration-free specification',
+    design='§4 C10'),
  'C09': dict(
     text='Every numeric conversion primitive of ncx.c (164 scalar primitives + 97 inlined byte-loop elements) is translated from the current source into Lean on every run and proved equal to the written-from-the-rules specification ConvSpec for ALL input values (integers by omega, floats over exact rationals); whole requests of any length are lifted by proved fold theorems (element independence, first error). Known deviations (NaN, 2^63/2^64, float Inf into double) are proved as counterexamples next to the partial theorems and replayed on the compiled C.',
     note='Trusted: Lean kernel + 3 standard axioms; translator tools/gen_ncx.py (clang AST -> Lean, fail-closed, every generated def also executed against the compiled C on ~10^5 boundary/random inputs); IEEE rounding of C casts is a model parameter; get_ix_/put_ix_ byte codecs and the dispatch in convert_swap.m4 are exercised by the harness, not proved.',
